@@ -253,6 +253,26 @@ def runHist {α : Type} (desc : FieldDesc) (F : FOps α) (uSpec bSpec : String) 
       let (st, lastQ) := stq
       let toks := (line.trimAscii.toString.splitOn " ").filter (· != "")
       if line.startsWith "tcheck@" then ((st, lastQ), "ok 0 of " ++ toString (env.fld (atIdx line)).card)
+      else if (toks.headD "").endsWith "=spoly" then
+        -- `qK=spoly qA qB`: the exported `bivariate.SPolynomial` (operand errors and rings as every binary operation;
+        -- a zero operand is refused with InputValue since "fix: bivariate.SPolynomial refuses the zero polynomial")
+        let ra := bGet st (regNum (toks.getD 1 "")); let rb := bGet st (regNum (toks.getD 2 ""))
+        let dst := regNum (((toks.headD "").splitOn "=").getD 0 "")
+        match bCheck ra [rb] with
+        | some (r, _) => ((st, lastQ), "err " ++ toString r.err)
+        | none =>
+          if ra.val.isEmpty || rb.val.isEmpty then ((st, lastQ), "err InputValue")
+          else
+            let Rr := bring env ra.home
+            match BPoly.sPoly F (bord env ra.home) ra.val rb.val with
+            | none => ((st, lastQ), "fuel-exhausted")
+            | some sp =>
+              -- both products are made with `Mult`, which reduces in a quotient ring; so does `Minus`
+              match BPoly.reduceIn Rr sp with
+              | none => ((st, lastQ), "fuel-exhausted")
+              | some v =>
+                let r : BReg α := { home := ra.home, val := v }
+                (({ st with bs := St.setL st.bs dst r }, lastQ), "ok " ++ showB env r)
       else if line.startsWith "quotient " then
         let (st', r) := stepD st line
         let lq := if r == "ok" then BPoly.quotientGens F ord (iGet st (regNum (toks.getD 1 ""))) else lastQ
